@@ -42,13 +42,15 @@ type Case struct {
 var boxes = []string{"alpha", "beta", "gamma"}
 
 var opGen = rapid.Custom(func(t *rapid.T) Op {
-	switch rapid.SampledFrom([]string{"dispatch", "dispatch", "dispatch", "dispatch", "delete", "add", "add", "close", "close", "stall", "hold", "release", "burst", "leave", "leave", "leave"}).Draw(t, "k") {
+	switch rapid.SampledFrom([]string{"dispatch", "dispatch", "dispatch", "dispatch", "delete", "add", "add", "close", "close", "stall", "hold", "release", "burst", "leave", "leave", "leave", "deljoin", "deljoin"}).Draw(t, "k") {
 	case "leave":
 		return Op{K: "leave", L: rapid.IntRange(1, 7).Draw(t, "l"), N: rapid.IntRange(1, 5).Draw(t, "n"), Box: rapid.IntRange(0, 2).Draw(t, "box")}
 	case "dispatch":
 		return Op{K: "dispatch", Box: rapid.IntRange(0, 2).Draw(t, "box")}
 	case "delete":
-		return Op{K: "delete", Ref: rapid.IntRange(0, 30).Draw(t, "ref")}
+		return Op{K: "delete", Ref: rapid.IntRange(0, 30).Draw(t, "ref"), N: rapid.IntRange(0, 4).Draw(t, "mode")}
+	case "deljoin":
+		return Op{K: "deljoin", N: rapid.IntRange(0, 1).Draw(t, "mode"), Kind: rapid.SampledFrom([]string{"mock", "v1", "v2"}).Draw(t, "kind")}
 	case "add":
 		return Op{K: "add", Kind: rapid.SampledFrom([]string{"mock", "failing", "v1", "v2", "v2", "v2"}).Draw(t, "kind"),
 			Filter: rapid.SampledFrom([]int{0, 0, 1, 2}).Draw(t, "filter"), N: rapid.IntRange(1, 4).Draw(t, "n")}
@@ -217,7 +219,20 @@ func run(c Case) *hx.Outcome {
 	gate := &lst{kind: "mock", isGate: true, attached: true, blocked: make(chan struct{}, 1), release: make(chan struct{})}
 	hub.AddListener(gate)
 	ls := []*lst{gate}
-	var history []ev // retained (dispatched, not deleted), oldest first, at most c.History
+	// window = the most recent c.History dispatched messages, oldest first; a deleted one keeps
+	// its slot (the statement: "those of the most recent N stored messages that have not since
+	// been deleted"); history = its not-deleted members
+	var window []ev
+	gone := map[string]bool{}
+	var history []ev
+	rebuild := func() {
+		history = history[:0]
+		for _, e := range window {
+			if !gone[e.mailbox+"/"+e.id] {
+				history = append(history, e)
+			}
+		}
+	}
 	var dispatched []ev
 	seq := 0
 	held := false
@@ -253,10 +268,11 @@ func run(c Case) *hx.Outcome {
 		if c.History == 0 {
 			return // monitor disabled: nothing is retained or relayed
 		}
-		history = append(history, e)
-		if len(history) > c.History {
-			history = history[1:]
+		window = append(window, e)
+		if len(window) > c.History {
+			window = window[1:]
 		}
+		rebuild()
 		broadcast(e)
 	}
 	waitFor := func(l *lst, d time.Duration) bool {
@@ -312,6 +328,12 @@ func run(c Case) *hx.Outcome {
 	// closed with those events still buffered
 	var ops []Op
 	for _, op := range c.Ops {
+		if op.K == "deljoin" {
+			// delete the oldest (or newest) retained message, then a listener joins at once: its
+			// replay must not contain the deleted message
+			ops = append(ops, Op{K: "delete", N: op.N}, Op{K: "add", Kind: op.Kind, N: 1})
+			continue
+		}
 		if op.K != "leave" {
 			ops = append(ops, op)
 			continue
@@ -337,9 +359,16 @@ func run(c Case) *hx.Outcome {
 			queued++
 		case "delete":
 			var e ev
-			if op.Ref < len(dispatched) {
+			switch {
+			case op.N == 0 && len(history) > 0: // the oldest retained message
+				e = ev{true, history[0].mailbox, history[0].id}
+			case op.N == 1 && len(history) > 0: // the newest retained message
+				e = ev{true, history[len(history)-1].mailbox, history[len(history)-1].id}
+			case op.N == 2 && len(history) > 0: // one in the middle
+				e = ev{true, history[len(history)/2].mailbox, history[len(history)/2].id}
+			case op.Ref < len(dispatched): // any message ever dispatched (maybe already gone)
 				e = ev{true, dispatched[op.Ref].mailbox, dispatched[op.Ref].id}
-			} else {
+			default:
 				e = ev{true, "alpha", "unknown"}
 			}
 			if !guard(i, "Delete", func() { hub.Delete(e.mailbox, e.id) }) {
@@ -349,12 +378,8 @@ func run(c Case) *hx.Outcome {
 			if c.History == 0 {
 				break
 			}
-			for j, h := range history {
-				if h.mailbox == e.mailbox && h.id == e.id {
-					history = append(append([]ev{}, history[:j]...), history[j+1:]...)
-					break
-				}
-			}
+			gone[e.mailbox+"/"+e.id] = true
+			rebuild()
 			broadcast(e)
 		case "add":
 			if len(ls) >= 8 {
@@ -422,11 +447,30 @@ func run(c Case) *hx.Outcome {
 			if l == nil {
 				break
 			}
+			// the writer stops at a quiescent point: everything queued so far has been written, so
+			// its 100-event buffer is empty when it stalls (a stall with a nearly full buffer is the
+			// recorded slow-listener finding reached by another path)
+			if held || l.stalled {
+				break
+			}
+			if !syncHub(hub, hx.ReplyTimeout) {
+				o.Failf(pid+":hub-wedged", "step %d: Hub.Sync did not return within %v", i, hx.ReplyTimeout)
+				return o
+			}
+			if l.attached && !l.stalled {
+				waitFor(l, 5*time.Second)
+			}
 			l.drain.Store(false)
 			l.stalled = true
 		case "hold":
 			if held || c.History == 0 {
 				break
+			}
+			// drain the queue first, so that the gate blocks on this very event and the bounded
+			// operation queue is empty while the hub is held
+			if !syncHub(hub, hx.ReplyTimeout) {
+				o.Failf(pid+":hub-wedged", "step %d: Hub.Sync did not return within %v although every open listener is draining or was closed", i, hx.ReplyTimeout)
+				return o
 			}
 			gate.blockNext.Store(true)
 			if !guard(i, "Dispatch", func() { dispatch(op.Box) }) {
